@@ -53,7 +53,7 @@ CLAIMS = {
         "grids of any length. The words are compared exactly with the real analog_tjm_1/2 run with recording stubs (real "
         "has_scheduled_jump); the binary64 time-matching model is compared bit-exactly with has_scheduled_jump up to 10^6 steps. "
         "PARTIAL: the numerical action of the operator (application, two-site merge/split, renormalisation) is covered by the "
-        "dense 'apply once at t_k' search only. Extended: the time-matching tests of has_scheduled_jump/apply_scheduled_jumps are regenerated from the source and proved equal to the model and to each other; local-operator theorem for the action of a one-site jump. Scheduled jumps with the user's own matrix under own and library names. Several trajectories on one sampled noise model (scheduled jumps next to a stochastic channel of negligible rate), serial and through worker processes, each against the dense reference.",
+        "dense 'apply once at t_k' search only. Extended: the time-matching tests of has_scheduled_jump/apply_scheduled_jumps are regenerated from the source and proved equal to the model and to each other; local-operator theorem for the action of a one-site jump. Scheduled jumps with the user's own matrix under own and library names. Several trajectories on one sampled noise model (scheduled jumps next to a stochastic channel of negligible rate), serial and through worker processes, each against the dense reference. Schedules riding on a noise model whose stochastic channels are all switched off.",
         COMMON_NOTE + "Assumes the state is determined by the word of kernel calls.",
         "DESIGN.md §3 C14"),
     "C15": (
@@ -62,7 +62,7 @@ CLAIMS = {
         "after j steps, that with sampling off the single column is the state at the total time for every grid with >= 2 points, "
         "and (PARTIAL: over Flocq's real-number model of binary64, 1 <= k <= 2^40, no underflow) that round(fl(fl(k*dt)/dt)) = k "
         "so the grid has k+1 points. The PrimFloat grid model is compared bit for bit (length, first, second, last element) with "
-        "AnalogSimParams.times on a (k, dt) sweep; all four solvers are searched for wrong result lengths / values at the total time. Extended: the expression assigned to AnalogSimParams.times is regenerated from the source and proved equal to the grid model; sweep over time units 1e-12..1e3; observable-reuse histories. Dense back-ends: SolverClock model + clock traces (which grid point each entry is evaluated at, step lengths, t_eval); long horizons on 6-8 qubits.",
+        "AnalogSimParams.times on a (k, dt) sweep; all four solvers are searched for wrong result lengths / values at the total time. Extended: the expression assigned to AnalogSimParams.times is regenerated from the source and proved equal to the grid model; sweep over time units 1e-12..1e3; observable-reuse histories. Dense back-ends: SolverClock model + clock traces (which grid point each entry is evaluated at, step lengths, t_eval); long horizons on 6-8 qubits. Columns with deterministic events pinned to grid times (first, inner, last; both orders) against the apply-once reference.",
         COMMON_NOTE + "Axioms: the standard-library real-number axioms and classic (through Flocq) for C15_len_partial only. "
         "The bridge PrimFloat ops = Flocq rounding is not proved (sweep).",
         "DESIGN.md §3 C15"),
@@ -88,7 +88,7 @@ CLAIMS = {
         "_run_weak_sim on enumerated and random histories, serial and parallel (deterministic executor). The search runs real "
         "simulations: reused vs fresh noise-free results, deep equality of circuit/Hamiltonian/noise model before and after, one "
         "OS-seeded Generator per trajectory with distinct states. PARTIAL: statistical independence of separately OS-seeded "
-        "generators (also across forked workers) is a property of NumPy/the OS and is not modelled. Extended: layer-sampling histories (columns depend on the circuit of the run only). Real pools of four workers: no trajectory repeats another of the same or previous run; generator-per-trajectory is a correspondence, not a demand. One AnalogSimParams object served by TJM, MCWF and Lindblad in any order (run_analog model + trace). State-ray check with an asymmetric initial state. Noise models with switched-off channels next to live ones and with drawn strengths, the Lindblad solver, scheduled jumps and long-range factors in the before/after snapshot. Aliasing model (ObjStore): theorem that writes addressed to objects the run allocated leave every caller object unchanged; tie: NoiseModel.sample() shares nothing with its source, operation sequences on the real sample vs run_on_sample, run() hands a sample to every front-end. Scheduled jumps next to a channel of negligible rate: every trajectory of a run is the same evolution whatever its index or worker. Allocation of result storage regenerated from the source of Observable.initialize on every run (translate_init.py -> Gen/InitGen.v) and proved equal to the model (one row per requested trajectory or shot, the front-end's column count, nothing inherited from an earlier run); validated against the real method on fresh and used observables. Refused calls (noisy circuit run with get_state) in the Params model with theorem that histories with refusals are as harmless as histories without; refused-then-corrected histories on the real front-ends.",
+        "generators (also across forked workers) is a property of NumPy/the OS and is not modelled. Extended: layer-sampling histories (columns depend on the circuit of the run only). Real pools of four workers: no trajectory repeats another of the same or previous run; generator-per-trajectory is a correspondence, not a demand. One AnalogSimParams object served by TJM, MCWF and Lindblad in any order (run_analog model + trace). State-ray check with an asymmetric initial state. Noise models with switched-off channels next to live ones and with drawn strengths, the Lindblad solver, scheduled jumps and long-range factors in the before/after snapshot. Aliasing model (ObjStore): theorem that writes addressed to objects the run allocated leave every caller object unchanged; tie: NoiseModel.sample() shares nothing with its source, operation sequences on the real sample vs run_on_sample, run() hands a sample to every front-end. Scheduled jumps next to a channel of negligible rate: every trajectory of a run is the same evolution whatever its index or worker. Allocation of result storage regenerated from the source of Observable.initialize on every run (translate_init.py -> Gen/InitGen.v) and proved equal to the model (one row per requested trajectory or shot, the front-end's column count, nothing inherited from an earlier run); validated against the real method on fresh and used observables. Refused calls (noisy circuit run with get_state) in the Params model with theorem that histories with refusals are as harmless as histories without; refused-then-corrected histories on the real front-ends. Different user-defined operators under the same name, strength and step in consecutive runs.",
         COMMON_NOTE + "Translator harness/gen/translate_init.py (Observable.initialize -> Gen/InitGen.v), validated against the real method on every run.",
         "DESIGN.md §3 C20"),
     "C18": (
@@ -99,7 +99,7 @@ CLAIMS = {
         "forms are proved to be one-parameter groups through the identity. Angle expressions are normalised by field_simplify so that "
         "algebraically equal rewrites of the source keep the proofs valid. PARTIAL: closed form = analytic matrix exponential is cited "
         "(group law proved); tensor orientation (set_sites transposes), extend_gate/split_tensor (SVD split, identity padding, reversal) "
-        "are checked numerically for both orientations and separations 1..4 by the search, not mechanised. Extended: padded_gate_mpo theorem (identity pass-through padding; flipped chain for descending sites) and structural tie of the real mpo_tensors; fine Trotter angles. Histories on one gate object (re-sited in both orientations).",
+        "are checked numerically for both orientations and separations 1..4 by the search, not mechanised. Extended: padded_gate_mpo theorem (identity pass-through padding; flipped chain for descending sites) and structural tie of the real mpo_tensors; fine Trotter angles. Histories on one gate object (re-sited in both orientations). Every form read at each earlier placement of a re-sited gate object.",
         COMMON_NOTE + "Axioms: the three standard-library real-number axioms (sig_forall_dec, sig_not_dec, functional_extensionality_dep). "
         "The translator is trusted to render the supported expression grammar; it fails closed on anything else.",
         "DESIGN.md §3 C18"),
@@ -245,7 +245,7 @@ CLAIMS = {
         "coefficients on random matrices with the live states, the live dual frame reproducing random 4x4 matrices, Choi index order. "
         "PARTIAL (searched): pinv, sequence bookkeeping, weighted aggregation and the simulated segments — tomography.run + "
         "predict_final_state on held-out preparations and CPTP maps vs the partial trace of the dense evolution (L=2,3, one and two "
-        "segments, TJM and MCWF). Extended: aggregation/bookkeeping model (TomoAgg) with theorems and scripted-runner tie; several predictions per tensor; multi-segment MCWF. Read-only queries between predictions from one returned object. Prediction = dual-frame contraction for every held-out sequence (LinAlg/Multilinear.v). First-order driver and weakly driven chains (branch weights of the forced projections below 1e-8), three segments.",
+        "segments, TJM and MCWF). Extended: aggregation/bookkeeping model (TomoAgg) with theorems and scripted-runner tie; several predictions per tensor; multi-segment MCWF. Read-only queries between predictions from one returned object. Prediction = dual-frame contraction for every held-out sequence (LinAlg/Multilinear.v). First-order driver and weakly driven chains (branch weights of the forced projections below 1e-8), three segments. Dense back-end on six-site chains with strongly coupled, long segments.",
         COMMON_NOTE + "Axioms: standard-library real-number axioms.",
         "DESIGN.md §3 C17"),
 }
